@@ -5,6 +5,7 @@ exactly the reachable outcome sequences (fault sequences) for every configuratio
 """
 
 import asyncio
+import itertools
 import logging
 
 from hv import boot  # noqa: F401
@@ -52,7 +53,17 @@ class Base(BaseException):
     pass
 
 
-OUTCOMES = ["value", "caught", "subcaught", "other", "cancelled", "base"]
+class BadStrCaught(Caught):
+    """a caught exception that cannot be rendered: logging it must not disturb the retry"""
+
+    def __str__(self) -> str:
+        raise TypeError("cannot render")
+
+    def __repr__(self) -> str:
+        return "BadStrCaught()"
+
+
+OUTCOMES = ["value", "caught", "subcaught", "other", "cancelled", "base", "badstr"]
 
 
 def programs(tier: str):
@@ -70,8 +81,74 @@ def programs(tier: str):
                         }
 
 
+    # two overlapping calls through one async wrapper: each has its own attempt budget
+    for limit in BOUNDS[tier]["limits"][:2]:
+        for a in itertools.product(("caught", "value"), repeat=limit + 1):
+            for b in itertools.product(("caught", "value", "other"), repeat=limit + 1):
+                yield {"concurrent": True, "limit": limit, "seqs": [list(a), list(b)]}
+
+
 def explore_config(tier: str, program) -> dict:
     return {}
+
+
+def _concurrent(program, ch: Chooser) -> Result:
+    from hv.vloop import Livelock
+    from hv.world import World
+
+    limit, seqs = program["limit"], program["seqs"]
+    w = World(ch)
+    viols: list[dict] = []
+    try:
+        calls: dict[int, list] = {0: [], 1: []}
+
+        @retry(limit=limit, catching=Caught)
+        async def afn(who):
+            k = len(calls[who])
+            rec = {"kind": seqs[who][k] if k < len(seqs[who]) else "value"}
+            calls[who].append(rec)
+            await w.pause(f"c{who}.{k}")
+            if rec["kind"] == "value":
+                rec["val"] = object()
+                return rec["val"]
+            rec["exc"] = _make_exc(rec["kind"], k)
+            raise rec["exc"]
+
+        got: dict = {}
+
+        async def caller(who):
+            try:
+                got[who] = ("value", await afn(who))
+            except BaseException as exc:  # noqa: BLE001
+                got[who] = ("raised", exc)
+
+        tasks = [w.task(caller(0), name="c0"), w.task(caller(1), name="c1")]
+        try:
+            w.run()
+        except Livelock:
+            viols.append(viol("termination", "concurrent", "calls finish", "livelock"))
+        for who in (0, 1):
+            exp = 0
+            for kind in seqs[who] + ["value"]:
+                exp += 1
+                if kind != "caught" or exp == limit + 1:
+                    break
+            kinds = [c["kind"] for c in calls[who]]
+            if len(calls[who]) != exp:
+                viols.append(
+                    viol("attempts", f"overlapping-calls/limit={limit}", f"caller {who}: {exp} calls", f"{len(calls[who])} calls {kinds}", trace=w.trace)
+                )
+            elif who in got:
+                final = calls[who][-1]
+                ok = (got[who][0] == "value" and got[who][1] is final.get("val")) if final["kind"] == "value" else (got[who][0] == "raised" and got[who][1] is final.get("exc"))
+                if not ok:
+                    viols.append(viol("last-outcome", "overlapping-calls", f"outcome of call {exp} of caller {who}", got[who][0], trace=w.trace))
+            if not tasks[who].done():
+                viols.append(viol("termination", "overlapping-calls", "done", "pending"))
+        out = f"concurrent/{len(calls[0])}+{len(calls[1])}"
+        return Result(out, True, viols[:3], {"trace": w.trace, "calls": [[c["kind"] for c in calls[0]], [c["kind"] for c in calls[1]]]})
+    finally:
+        w.close()
 
 
 def _make_exc(kind: str, k: int) -> BaseException:
@@ -81,10 +158,13 @@ def _make_exc(kind: str, k: int) -> BaseException:
         "other": Other,
         "cancelled": asyncio.CancelledError,
         "base": Base,
+        "badstr": BadStrCaught,
     }[kind](f"{kind}#{k}")
 
 
 def execute(program, ch: Chooser) -> Result:  # noqa: C901, PLR0912, PLR0915
+    if program.get("concurrent"):
+        return _concurrent(program, ch)
     limit, catching, delay, mode, scoped = (
         program["limit"],
         program["catching"],
@@ -185,7 +265,7 @@ def execute(program, ch: Chooser) -> Result:  # noqa: C901, PLR0912, PLR0915
             if not task.done():
                 viols.append(viol("termination", mode, "call returns", "pending"))
         # ---- reference: counter loop ----
-        caught_kinds = {"caught", "subcaught"} | ({"other"} if catching == "default" else set())
+        caught_kinds = {"caught", "subcaught", "badstr"} | ({"other"} if catching == "default" else set())
         exp_calls = 0
         terminal = False
         for rec in calls:
